@@ -585,7 +585,7 @@ def _mutations(tokens):
                     out.append(tokens[:i] + [j] + tokens[i + 1:])
         out.append(tokens[:i] + tokens[i + 1:])                  # missing argument
         out.append(tokens[:i] + ['--bogus'] + tokens[i:])        # unknown option in each position
-    out.append(tokens + ['7'])
+    out.append(tokens + ['2'])
     out.append(tokens + ['x'])
     out.append(tokens + ['--bogus'])
     out.append(tokens + ['-h'])
@@ -698,9 +698,15 @@ def cnfgen_vectors(tier, seed, tool='cnfgen'):
     for g in [[], ['-h'], ['--help'], ['-V'], ['--version'], ['--tutorial'], ['--help-graph'], ['--help-bipartite'], ['--help-dag'],
               ['-q'], ['-v'], ['-q', '-v'], ['--seed'], ['--seed', 'x'], ['--seed', '1.5'], ['-S', '3'], ['-of'], ['-of', 'bogus'],
               ['-of', 'dimacs'], ['-of', 'opb', '-l'], ['-l'], ['-o'], ['--bogus'], ['bogusformula'], ['-T'], ['-T', 'shuffle'],
-              ['--varnames'], ['-o', '{D}/rodir/nonexistent/x.cnf', 'php', '2'], ['-o', '{D}/dir.cnf', 'php', '2'],
-              ['-o', '/dev/full', 'php', '2'], ['-o', '/proc/nonexistent/x', 'php', '2']]:
+              ['--varnames']]:
         add('global', g)
+    for g in [['-o', '{D}/rodir/nonexistent/x.cnf', 'php', '2'], ['-o', '{D}/dir.cnf', 'php', '2'],
+              ['-o', '/dev/full', 'php', '2'], ['-o', '/proc/nonexistent/x', 'php', '2']]:
+        add('output-unwritable', g)
+    for g in [['-o', '{D}/out/o1.cnf', 'php', '2'], ['-o', '{D}/out/o2.opb', 'php', '2'], ['-o', '{D}/out/o3.tex', 'php', '2'],
+              ['-o', '{D}/out/o4.tex', '-of', 'opb', 'php', '2'], ['-o', '{D}/out/o5.opb', 'php'], ['-o', '{D}/out/o6.tex', 'php', 'x'],
+              ['--output', '-', 'php', '2'], ['-o', '{D}/out/o7', '-q', 'php', '2', '-T', 'xor', '2']]:
+        add('output-file', g)
     for g in [['-q'], ['-v'], ['--varnames'], ['-q', '--varnames'], ['--seed', '0'], ['--seed', '-7'], ['-S', '1099511627776'],
               ['-l'], ['--latex', '-q'], ['--output-format', 'opb'], ['--output-format=latex']]:
         for fam, rest in (('php', ['3', '2']), ('randkcnf', ['2', '4', '3']), ('and', ['1', '1']), ('false', [])):
@@ -783,7 +789,7 @@ def cnfgen_vectors(tier, seed, tool='cnfgen'):
     # (6) cheap large numbers
     for a in [['randkcnf', '3', '1000000', '3'], ['randkxor', '3', '1000000', '2'], ['randkcnf', '1000000', '5', '1'],
               ['vdw', '3', '1000000', '2'], ['or', '1000', '1000'], ['and', '1000', '0'], ['php', '1000', '0'],
-              ['ram', '1000000', '1000000', '3'], ['kclique', '1000', 'complete', '3'], ['kcolor', '2', 'gnm', '1000', '0'],
+              ['ram', '1000000', '1000000', '3'], ['kclique', '100', 'complete', '3'], ['kcolor', '2', 'gnm', '1000', '0'],
               ['randkcnf', '2', '3', '100'], ['cliquecoloring', '0', '1000', '1'], ['stone', '2', 'path', '1', '--sparse', '1000000'],
               ['tseitin', '1000000', '1000001'], ['op', '1000000', '1000001'], ['subsetcard', '3', '1000000']]:
         add('large', a)
@@ -803,8 +809,10 @@ def small_tool_vectors(tier, seed):
         add('cnfshuffle', 'shuffle', g, cnf)
         add('cnfshuffle', 'shuffle', g + ['-i', '{D}/f.cnf'])
     for g in [['-h'], ['--help'], ['--bogus'], ['extra'], ['-i'], ['-o'], ['-i', '{D}/missing.cnf'], ['-i', '{D}/dir.cnf'],
-              ['-o', '{D}/nonexistent-dir/x.cnf'], ['--seed'], ['-i', '{D}/binary.cnf'], ['-o', '/dev/full']]:
+              ['-o', '{D}/nonexistent-dir/x.cnf'], ['--seed'], ['-i', '{D}/binary.cnf']]:
         add('cnfshuffle', 'shuffle-error', g, cnf)
+    add('cnfshuffle', 'output-unwritable', ['-o', '/dev/full'], cnf)
+    add('cnfshuffle', 'output-file', ['-o', '{D}/out/s1.cnf'], cnf)
     for n, content in sorted(BAD_FILES.items()):
         if n.endswith('.cnf'):
             add('cnfshuffle', 'shuffle-file', ['-i', '{D}/' + n])
@@ -822,8 +830,10 @@ def small_tool_vectors(tier, seed):
                 add('kthlist2pebbling', 'k2p-mutation', [t] + m, dag)
         add('kthlist2pebbling', 'help', [t, '-h'], dag)
     for g in [['-h'], ['--help'], ['--bogus'], ['bogus'], ['-i'], ['-o'], ['-i', '{D}/missing.kthlist'], ['-i', '{D}/dir.kthlist'],
-              ['-o', '{D}/nonexistent-dir/x.cnf'], ['-i', '{D}/binary.kthlist'], ['-T', 'xor', '2'], ['xor', '2', '-T', 'xor', '2'], ['-o', '/dev/full']]:
+              ['-o', '{D}/nonexistent-dir/x.cnf'], ['-i', '{D}/binary.kthlist'], ['-T', 'xor', '2'], ['xor', '2', '-T', 'xor', '2']]:
         add('kthlist2pebbling', 'k2p-error', g, dag)
+    add('kthlist2pebbling', 'output-unwritable', ['-o', '/dev/full'], dag)
+    add('kthlist2pebbling', 'output-file', ['-o', '{D}/out/k1.cnf', 'xor', '2'], dag)
     for n, content in sorted(BAD_FILES.items()) + sorted(GOOD_FILES.items()):
         if n.endswith('.kthlist'):
             add('kthlist2pebbling', 'k2p-file', ['-i', '{D}/' + n])
@@ -838,7 +848,7 @@ def all_vectors(tier, seed):
     V = cnfgen_vectors(tier, seed, 'cnfgen')
     P = [v for v in cnfgen_vectors(tier, seed, 'pbgen') if '-T' not in v['args']]
     if tier != 'thorough':
-        P = [v for i, v in enumerate(P) if v['group'] in ('global', 'base', 'help', 'dimacsfile', 'large') or i % 3 == 0]
+        P = [v for i, v in enumerate(P) if v['group'] in ('global', 'base', 'help', 'dimacsfile', 'large', 'output-unwritable', 'output-file') or i % 3 == 0]
     for a in [['php', '2', '1', '-T', 'xor', '2'], ['-T'], ['-of', 'latex', 'php', '2', '-T', 'flip'], ['-T', 'php', '2']]:
         P.append({'tool': 'pbgen', 'args': a, 'stdin': '', 'group': 'chain'})
     return V + P + small_tool_vectors(tier, seed)
